@@ -36,7 +36,8 @@ Definition in_session (s : sname) : bool :=
 Definition is_down (s : sname) : bool :=
   match s with Idle | Ceased => true | _ => false end.
 
-Definition is_update (o : out) : bool := match o with ProcessedUpdate _ _ => true | _ => false end.
+Definition is_update (o : out) : bool :=
+  match o with ProcessedUpdate _ _ | ProcessedPoison _ _ _ => true | _ => false end.
 Definition is_crash (o : out) : bool := match o with Crash => true | _ => false end.
 
 Record spec_step (a : astate) (os : list out) (b : astate) : Prop := {
